@@ -4,7 +4,8 @@ import ERP.Total
 
 `ERP/Gen/Arith.lean` is regenerated on every run from the statements of
 `AxisPosition.logicalToNative`, `.nativeToLogical`, `.setLogicalOffsetPosition`, `.setHomeOffset`,
-`ExcludeRegionState._exitCoordinate`, `RetractionState.combine` and
+`ExcludeRegionState._exitCoordinate`, `RetractionState.combine`, `RetractionState._addCommands`
+(the numbers formatted into its two commands) and
 `GcodeHandlers.computeArcCenterOffsets`, and of `GcodeHandlers.planArc` (everything before its loop, and
 the loop body) (assignments, augmented assignments, `if`/`else`, early
 `return`, conditional expressions, `and`/`or`/`^`, comparisons, `+ - * /`, `abs`, `math.sqrt`,
@@ -66,6 +67,22 @@ theorem gen_combine_frame (r o : Retraction α) :
     (T.combine r o).feedRate = r.feedRate ∧ (T.combine r o).recoverExcluded = r.recoverExcluded := by
   unfold T.combine
   split <;> exact ⟨rfl, rfl, rfl, rfl⟩
+/-- `RetractionState._addCommands` (non-firmware): the synthesised `G92 E…` / `G1 F… E…` carry the
+numbers the source computes, and the extruder is left where the source leaves it -/
+theorem gen_addCommands (r : Retraction α) (dir : α) (p : Position α) (h : r.firmwareRetract = false) :
+    (T.addCommands r dir p).2 =
+      (let t := Gen.addCommandsValues (r.extrusionAmount.getD 0) (r.feedRate.getD 0) dir
+          (T.cur p.e) p.e.homeOffset p.e.offset p.e.unitMultiplier p.e.absoluteMode
+       [Out.g92e t.1, Out.g1fe t.2.2.1 t.2.1]) ∧
+    T.cur (T.addCommands r dir p).1.e =
+      (Gen.addCommandsValues (r.extrusionAmount.getD 0) (r.feedRate.getD 0) dir
+          (T.cur p.e) p.e.homeOffset p.e.offset p.e.unitMultiplier p.e.absoluteMode).2.2.2 := by
+  unfold T.addCommands
+  simp only [h, Bool.false_eq_true, if_false]
+  exact ⟨rfl, rfl⟩
+
+theorem addCommands_templates : Gen.addCommandsTemplates = ["G92 E{e}", "G1 F{f} E{e}"] := rfl
+
 /-- `computeArcCenterOffsets(endX, endY, radius, clockwise)` -/
 theorem gen_arcCenterOffsets (p : Position α) (endX endY radius : α) (cw : Bool) :
     T.computeArcCenterOffsets p endX endY radius cw =
